@@ -58,13 +58,23 @@ func c06NewObject(p *prog) {
 	r, h := p.r, p.h
 	n := h.NewObj(nil)
 	k := r.Intn(5)
+	if r.Chance(1, 25) {
+		k = []int{9, 17, 40, 100}[r.Intn(4)] // beyond one map bucket / several growth steps
+	}
+	many := k > 8
+	keyFor := func(i int) string {
+		if many {
+			return "k" + fmt.Sprint(i%(k-2)) // a few duplicates
+		}
+		return c06Key(r)
+	}
 	switch r.Intn(4) {
 	case 0, 1: // NewObject(pairs...) with duplicates inside one call
 		keys := make([]string, k)
 		vals := make([]model.Val, k)
 		args := make([]any, 0, 2*k)
 		for i := range keys {
-			keys[i] = c06Key(r)
+			keys[i] = keyFor(i)
 			if i > 0 && r.Chance(1, 5) {
 				keys[i] = keys[r.Intn(i)]
 			}
@@ -82,7 +92,7 @@ func c06NewObject(p *prog) {
 		keys := []string{}
 		vals := []model.Val{}
 		for i := 0; i < k; i++ {
-			key := c06Key(r)
+			key := keyFor(i)
 			if _, dup := m[key]; dup {
 				continue
 			}
